@@ -1,32 +1,49 @@
 """C20 -- Both storage backends implement the same contract.
 
 Proof      : coq/Props/C20.v -- C20_refine_s3 / C20_refine_local / C20_backends_agree (every operation
-             sequence over canonical keys; every S3 prefix; any foreign objects in the bucket),
-             C20_range_equiv / C20_range_negative_seek (every content, every seek/read program),
-             C20_retry_* / C20_s3_retry_* (every outcome script), over Gen/GenS3.v which is REGENERATED
-             from storage_backend.py / s3_consistency.py on every run (key mapping, listing Prefix,
-             prefix stripping, constructor prefix, create_storage_backend's join, not-found / CAS /
-             permanent code literals, retry defaults); the hand-modelled functions are pinned by golden
-             AST digests in translator/gen_s3.py.
+             sequence over canonical keys; every S3 prefix; any foreign objects in the bucket).  The operation
+             alphabet is write / read / exists / list / delete / size / mtime / open_file / read_file_with_etag /
+             the CAS writer, and  Open k prog = open_seekable(k) followed by ANY seek/read program on the reader it
+             returned -- one operation of the history, so it interleaves with writes, overwrites and deletes of
+             the same key on the same backend;  C20_open_after_history (open_seekable after ANY history answers
+             from the key's CURRENT content, FileNotFoundError exactly when the key holds nothing now),
+             C20_open_ranges_in_objects (every ranged GET of every open of every history names an object that
+             exists, within its size);
+             C20_range_equiv / C20_range_negative_seek / C20_seek_invalid_whence (every content, every seek/read
+             program), C20_retry_* / C20_s3_retry_* (every outcome script).
+             Regenerated from the source on every run:  Gen/GenS3.v (key mapping, listing Prefix, prefix
+             stripping, constructor prefix, create_storage_backend's join, not-found / CAS / permanent code
+             literals, retry defaults) and Gen/GenRange.v (S3RangeFile.seek / readinto / readall integer kernels,
+             open_seekable's wiring: which key the reader reads and whose get_size() it is given; translator/
+             gen_range.py fails closed when open_seekable takes the size from anywhere but a get_size() of this
+             call); the remaining hand-modelled functions are pinned by golden AST digests.
 Tie        : correspondence, real code vs Coq model (vm_compute):
                gen-kernels   _get_s3_key / list_files Prefix / rel_path stripping / __init__ prefix /
                              create_storage_backend join  vs  Gen/GenS3.v, all strings over {a,b,/} len<=4
-               backends      every S3 request issued per operation (kind, key/prefix, count) vs Model/BackendTrace.v;
+               backends      every S3 request issued per operation (kind, key/prefix, count; for an Open on the raw
+                             reader every ranged GET's first/last) vs Model/BackendTrace.v;
                              LocalStorageBackend (temp dir) and S3StorageBackend (fakes3) vs Model/Backend.v
-                             on enumerated + random op sequences over a 12-key space with sibling-prefix
-                             names; also raw-string sequences OUTSIDE the canonical domain (leading/trailing
+                             on enumerated + random op sequences over a 13-key space with sibling-prefix
+                             names, issued through ONE or TWO backend instances over the same store; also
+                             raw-string sequences OUTSIDE the canonical domain (leading/trailing
                              slashes, a key that is a directory of another, exists("dir/"), key = prefix)
-               range         S3RangeFile vs Model/Range.v: all programs up to a length bound on sizes 0,1,2,
-                             sampled programs on 1 MiB+1; bytes, positions, every Range header
+               range         S3RangeFile vs Model/Range.v (over Gen/GenRange.v): all programs up to a length bound
+                             on sizes 0,1,2, sampled programs on 1 MiB+1; bytes, positions, every Range header
                retry         real with_s3_retry (time.sleep virtualised) vs Model/Retry.v: all outcome
                              scripts of length <= 7 over {good, transient, permanent, non-retryable};
                              attempts, result, sleeps;  is_permanent_s3_error vs the model on a code list
 Oracles    : implementation only, judged by the property text (no model involved):
-               backends-differ / spec   local vs S3 vs a 6-line dict store on every in-domain sequence
+               backends-differ / spec   local vs S3 vs a dict store + a 15-line reference file on every in-domain
+                                        sequence: histories mix write / CAS write / overwrite / delete with
+                                        open_seekable + seek/read program (through the BufferedReader and on the raw
+                                        reader underneath), open_file, size, read ... on hot keys, with empty and
+                                        non-empty prefixes and leading-slash spellings, on one or two instances
+               range-not-in-object      every ranged GET an Open issues must name an existing object, within its size
                range-file               S3RangeFile and open_seekable()'s BufferedReader vs a real local file
                                         (FileIO / buffered) on the same content; every Range header in range
                retry-contract           attempts / result / sleeps of with_s3_retry judged directly; transient faults at
-                                        ANY request index of an operation (positional plans), and systematically at every
+                                        ANY request index of an operation incl. open_seekable's HEAD and ranged GETs
+                                        (positional plans), and systematically at every
                                         page of multi-page listings (3..7 keys, page size 2; within / beyond the budget;
                                         permanent errors): listing compared as a sorted LIST (duplicates count), request counts
                paged-listing (corr)     the same listings vs Model/Paged.v (retry restarts the whole listing; C20_paged_listing_*)
@@ -60,22 +77,31 @@ REQ = ["DS.Model.Str", "DS.Gen.GenS3", "DS.Gen.GenRange", "DS.Model.Backend", "D
 
 MANIFEST_ENTRY = {
     "level_text": "C20_refine_s3 / C20_refine_local / C20_backends_agree proved in Coq for every operation sequence over canonical "
-                  "keys (unbounded length and key space; every S3 prefix; arbitrary foreign objects in the bucket), "
+                  "keys (unbounded length and key space; every S3 prefix; arbitrary foreign objects in the bucket) whose "
+                  "alphabet includes open_seekable + any seek/read program as ONE operation of the history (so it interleaves "
+                  "with writes, CAS writes, overwrites and deletes of the same key), open_file and read_file_with_etag; "
+                  "C20_open_after_history (open_seekable after any history answers from the key's current content), "
+                  "C20_open_ranges_in_objects (every ranged GET of every open names an existing object within its size), "
                   "C20_range_equiv for every content and seek/read program (bytes, positions, negative target = error, every "
                   "Range within 0<=first<=last<size), C20_retry_* for every outcome script (masking within budget, permanent "
                   "errors surface at once, exhaustion after exactly max+1 attempts, nothing swallowed or invented); key "
-                  "mapping, listing Prefix, prefix stripping, code literals and retry defaults are regenerated from the source "
-                  "on every run; models tied to LocalStorageBackend / S3StorageBackend / S3RangeFile / with_s3_retry by "
-                  "differential execution over an in-memory S3; implementation-only oracles search for a failing input",
-    "level_note": "trusted: Coq kernel; translator/gen_s3.py (+ golden AST digests of the hand-modelled functions); the S3 "
+                  "mapping, listing Prefix, prefix stripping, code literals, retry defaults, S3RangeFile's seek / readinto / "
+                  "readall kernels and open_seekable's wiring (key and size source of the reader) are regenerated from the "
+                  "source on every run; models tied to LocalStorageBackend / S3StorageBackend / S3RangeFile / with_s3_retry by "
+                  "differential execution over an in-memory S3 through one or two backend instances; implementation-only "
+                  "oracles search for a failing input",
+    "level_note": "trusted: Coq kernel; translator/gen_s3.py, translator/gen_range.py (+ golden AST digests of the hand-modelled "
+                  "functions); a reader is used within one operation (the object does not change while it is read); the CAS "
+                  "writer is modelled only as used correctly in a sequential history (tag just read); the S3 "
                   "object-store model (strong consistency, GET/HEAD/PUT/DELETE/list-by-string-prefix, NoSuchKey/404) as "
                   "implemented by harness/lib/fakes3.py; local theorem assumes no key is a directory of another key and no "
                   "'.'/'..'/empty segments (path normalisation is C17); exists() is compared on exact keys only (the "
                   "property's wording): exists(<directory>) is True locally and False on S3 without a trailing '/'; "
-                  "BufferedReader is covered by oracles only; faults inside a paginated listing are modelled (Model/Paged.v, theorem + correspondence), "
+                  "BufferedReader is covered by oracles only (its ranged GETs are judged in range, not predicted); faults inside a paginated listing are modelled (Model/Paged.v, theorem + correspondence), "
                   "faults inside other multi-request operations (exists('dir/'), open_seekable) by oracles only",
-    "technique": "Coq refinement proofs (simulation + induction over operation lists) over translator-regenerated kernels + "
-                 "differential correspondence against real backends over an in-memory S3",
+    "technique": "Coq refinement proofs (simulation + induction over operation lists whose alphabet includes open_seekable with "
+                 "a seek/read program) over translator-regenerated kernels + differential correspondence against real "
+                 "backends (one or two instances) over an in-memory S3",
     "design_ref": "DESIGN.md section 5 C20",
 }
 
@@ -85,8 +111,8 @@ DIRS = ["", "data", "data2", "dat", "metadata", "metadata/manifests", "metadata/
 CONTENTS = [b"", b"a", b"bc", b"xyz1"]
 PREFIXES = [("", []), ("p", []), ("wh/t1", [("wh/t10/data/y", b"o"), ("wh/t1", b"s"), ("zz", b"")]),
             ("wh/t1/", [("wh/t10/data/x", b"o"), ("wh/t1data/x", b"q")]), ("/lead//", [("lead/data/x", b"n")])]
-OPS = ["Write", "Read", "Exists", "ListDir", "Delete", "Size", "Mtime", "Open", "Stream"]
-OP_WEIGHTS = [6, 3, 3, 4, 3, 2, 1, 5, 1]
+OPS = ["Write", "Read", "Exists", "ListDir", "Delete", "Size", "Mtime", "Open", "Stream", "WriteCas", "ReadTag"]
+OP_WEIGHTS = [5, 3, 3, 4, 3, 2, 1, 5, 1, 2, 1]
 # seek/read programs run on the reader an Open operation obtains (contents are 0..4 bytes long)
 PROG_OFFS = [-5, -2, -1, 0, 1, 2, 3, 4, 5, 7]
 PROG_READS = [0, 1, 2, 3, 5]
@@ -137,6 +163,8 @@ def err_kind(e: BaseException) -> Tuple[str, ...]:
         return ("err", "NotDir")
     if isinstance(e, ClientError):
         return ("err", "ClientErr")
+    if type(e).__name__ == "CASConflictError":
+        return ("err", "Conflict")
     return ("exc", type(e).__name__)
 
 
@@ -179,6 +207,20 @@ def apply_op(be: Any, op: Tuple[Any, ...], local_root: Optional[str] = None) -> 
                 return ("bytes", bytes(f.read()))
             finally:
                 f.close()
+        if name == "ReadTag":
+            return ("bytes", bytes(be.read_file_with_etag(path)[0]))
+        if name == "WriteCas":
+            # the compare-and-swap writer, used correctly: current tag (or create-if-absent), then the conditional write;
+            # a backend without CAS writes plainly
+            if be.supports_cas:
+                try:
+                    tag = be.read_file_with_etag(path)[1]
+                except FileNotFoundError:
+                    tag = None
+                be.write_file_cas(path, op[2], tag)
+            else:
+                be.write_file(path, op[2])
+            return ("unit",)
     except Exception as e:  # noqa: BLE001 - the error kind IS the observation
         return err_kind(e)
     raise ValueError(name)
@@ -203,7 +245,7 @@ def gen_op(rng, keys: List[str], dirs: List[str], weights: Optional[List[int]] =
     name = rng.choices(OPS, weights=weights or OP_WEIGHTS)[0]
     if name == "ListDir":
         return (name, rng.choice(dirs))
-    if name == "Write":
+    if name in ("Write", "WriteCas"):
         return (name, rng.choice(keys), rng.choice(CONTENTS))
     if name == "Open":
         return (name, rng.choice(keys), gen_prog(rng), rng.choice(["buf", "raw"]))
@@ -271,8 +313,8 @@ def cstr(s: str) -> str:
 def op_coq(op: Tuple[Any, ...], keyfn: str) -> str:
     """keyfn: 'kk' (canonical keys as segment lists) or '' (raw strings)."""
     k = f"({keyfn} {cstr(op[1])})" if keyfn else cstr(op[1])
-    if op[0] == "Write":
-        return f"(Write {k} (lit {cstr(op[2].decode('latin-1'))}))"
+    if op[0] in ("Write", "WriteCas"):
+        return f"({op[0]} {k} (lit {cstr(op[2].decode('latin-1'))}))"
     if op[0] == "Open":
         return f"(Open {k} {prog_coq(op[2])})"
     return f"({op[0]} {k})"
@@ -335,10 +377,10 @@ def spec_oracle(ops: List[Tuple[Any, ...]]) -> List[Tuple[Any, ...]]:
     out: List[Tuple[Any, ...]] = []
     for op in ops:
         n, p = op[0], op[1].lstrip("/")
-        if n == "Write":
+        if n in ("Write", "WriteCas"):
             st[p] = op[2]
             out.append(("unit",))
-        elif n in ("Read", "Stream"):
+        elif n in ("Read", "Stream", "ReadTag"):
             out.append(("bytes", st[p]) if p in st else ("err", "NotFound"))
         elif n == "Exists":
             out.append(("bool", p in st))
@@ -392,7 +434,7 @@ def gen_domain_cases(ctx) -> List[Case]:
             ops = [("Write", k1, CONTENTS[(i + j) % 4]), ("Write", k2, CONTENTS[(i + 1) % 4]), ("ListDir", d), ("Exists", k1), ("Open", k1, pg, mode),
                    ("Delete", k1), ("ListDir", d), ("Exists", k1), ("Size", k2), ("Read", k1), ("Read", k2), ("Mtime", k1),
                    ("Open", k1, pg, mode), ("Open", k2, pg, mode), ("Stream", k1), ("Stream", k2),
-                   ("Write", k2, CONTENTS[(i + 2) % 4]), ("Open", k2, pg, mode)]
+                   ("Write" if (i + j) % 2 else "WriteCas", k2, CONTENTS[(i + 2) % 4]), ("Open", k2, pg, mode), ("ReadTag", k1)]
             cases.append((pfx, F, ops, [0] * len(ops) if (i + j) % 4 else [(x * 7 + i) % 2 for x in range(len(ops))]))
     # random; most operations of a case go to a few "hot" keys, so that one key sees write / overwrite / delete /
     # open / size / read in many orders on the same backend instance(s)
@@ -482,7 +524,7 @@ def shrink_ops(ctx, pfx, F, ops, hs, fails) -> Tuple[List[Tuple[Any, ...]], List
 def ops_json(ops) -> List[List[Any]]:
     out: List[List[Any]] = []
     for o in ops:
-        if o[0] == "Write":
+        if o[0] in ("Write", "WriteCas"):
             out.append([o[0], o[1], o[2].decode("latin-1")])
         elif o[0] == "Open":
             out.append([o[0], o[1], [list(x) for x in o[2]], o[3]])
@@ -494,7 +536,7 @@ def ops_json(ops) -> List[List[Any]]:
 def ops_unjson(js) -> List[Tuple[Any, ...]]:
     out: List[Tuple[Any, ...]] = []
     for o in js:
-        if o[0] == "Write":
+        if o[0] in ("Write", "WriteCas"):
             out.append((o[0], o[1], o[2].encode("latin-1")))
         elif o[0] == "Open":
             out.append((o[0], o[1], tuple(tuple(x) for x in o[2]), o[3]))
@@ -511,16 +553,27 @@ def obs_json(o: Any) -> Any:
     return o
 
 
-def report_ops_violation(ctx, seen_keys, suffix: str, pfx, F, ops, hs, bad) -> None:
-    key = f"{bad['which']}:{ops[bad['index']][0]}{suffix}"
+def classify_ops_failure(ops, bad: Dict[str, Any]) -> str:
+    key = f"{bad['which']}:{ops[bad['index']][0]}"
     if ops[bad["index"]][0] == "Open" and bad.get("local") is not None:
         lk, sk = bad["local"][0], bad["s3"][0]
         key += ":s3-opens-what-local-cannot" if (lk, sk) == ("err", "opened") else ":s3-cannot-open" if (lk, sk) == ("opened", "err") \
             else ":reader-bytes-or-positions" if lk == sk == "opened" else ":error-kind"
+    return key
+
+
+def report_ops_violation(ctx, seen_keys, suffix: str, pfx, F, ops, hs, bad) -> None:
+    kind = classify_ops_failure(ops, bad)
+    key = kind + suffix
     if key in seen_keys:
         return
     seen_keys.add(key)
-    small, shs = shrink_ops(ctx, pfx, F, ops, hs, lambda c, h: judge_domain_case(ctx, pfx, F, c, h) is not None)
+
+    def same_failure(c, h) -> bool:
+        b = judge_domain_case(ctx, pfx, F, c, h)
+        return b is not None and classify_ops_failure(c, b) == kind
+
+    small, shs = shrink_ops(ctx, pfx, F, ops, hs, same_failure)
     bad = judge_domain_case(ctx, pfx, F, small, shs) or {}
     ctx.violation(key, f"prefix={pfx!r} ops={ops_json(small)} handles={shs}: at op {bad.get('index')} {bad.get('op')} local={bad.get('local')} "
                        f"s3={bad.get('s3')} contract={bad.get('contract')} {bad.get('bad_range') or ''}",
@@ -1230,14 +1283,14 @@ def oracle_s3_faults(ctx) -> None:
         ops = []
         hot = rng.sample(KEYS, 2)
         for _ in range(rng.randint(1, 12)):
-            ops.append(gen_op(rng, hot if rng.random() < 0.6 else KEYS, DIRS, weights=[7, 3, 3, 5, 2, 2, 1, 4, 1]))
+            ops.append(gen_op(rng, hot if rng.random() < 0.6 else KEYS, DIRS, weights=[7, 3, 3, 5, 2, 2, 1, 4, 1, 0, 1]))
         plans = []
         for _op in ops:
             k = rng.choice([0, 0, 1, 2, 3, 5])
             plan: List[Any] = [None] * 10
             # a read/stat of a missing key uses all max_retries+1 attempts by itself (FileNotFoundError is retried):
             # keep its last attempt fault-free, otherwise the fault is not "within the budget"
-            span = 5 if _op[0] in ("Read", "Size", "Mtime", "Open", "Stream") else 10
+            span = 5 if _op[0] in ("Read", "Size", "Mtime", "Open", "Stream", "ReadTag") else 10
             for pos in rng.sample(range(span), k):
                 plan[pos] = [rng.choice(["before", "after"]), rng.choice(TRANSIENT_CODES)]
             plans.append(plan)
@@ -1500,13 +1553,16 @@ def corr_paged(ctx) -> None:
 
 # ======================================================================================== driver
 def run(ctx) -> None:
-    ctx.rule = ("backends: enumerated (key pair x directory probe sequences) + random operation sequences (1..25 ops) over 13 keys with "
-                "sibling-prefix names, 11 directories, 5 S3 prefixes with foreign objects, run on LocalStorageBackend, S3StorageBackend "
-                "over fakes3 and the Coq models; range: all seek/read programs up to a length bound + random ones on sizes 0,1,2,1MiB+1, "
+    ctx.rule = ("backends: enumerated (key pair x directory probe sequences) + random operation sequences (1..25 ops, most on 1..3 hot "
+                "keys) over 13 keys with sibling-prefix names, 11 directories, 5 S3 prefixes with foreign objects; operations = write, "
+                "CAS write, read, read+etag, exists, list, delete, size, mtime, open_file, open_seekable + seek/read program of length "
+                "0..5 (buffered or raw reader); each operation issued by one of up to two backend instances over the same store; run on "
+                "LocalStorageBackend, S3StorageBackend over fakes3 and the Coq models; range: all seek/read programs up to a length bound + random ones on sizes 0,1,2,1MiB+1, "
                 "raw and through BufferedReader, against a real local file; retry: all 21844 outcome scripts of length<=7; a case is "
                 "distinct by its full (prefix, operation list) / (size, program) / script")
     ctx.trusted_base += [
         "translator/gen_s3.py (Python ast -> Gallina for the S3 string kernels and literal tables; golden AST digests for hand-modelled functions)",
+        "translator/gen_range.py (Python ast -> Gallina for S3RangeFile's integer kernels and open_seekable's wiring; shape checks of the glue)",
         "harness/lib/fakes3.py as the model of a strongly consistent S3 (GET/HEAD/PUT/DELETE/list by string prefix; NoSuchKey / 404)",
         "harness: harness/props/c20.py, harness/lib/coqbuild.py (vm_compute evaluation of the models on generated cases)",
     ]
@@ -1514,7 +1570,8 @@ def run(ctx) -> None:
         "S3 is strongly consistent and answers GET/HEAD of a missing key with NoSuchKey/404 (AWS S3 behaviour since 2020)",
         "local theorem: no key is a directory of another key; segments non-empty, without '/', not '.' or '..' (C17 covers normalisation)",
         "exists() is compared on exact keys only, as the property states",
-        "the object read through S3RangeFile does not change during the read (size fixed at open)",
+        "the object read through S3RangeFile does not change during the read (size fixed at open): a reader lives within one operation of a history",
+        "the CAS writer is exercised as used correctly in a sequential history (write_file_cas with the tag read_file_with_etag just returned)",
     ]
     vs = quiet_library()
     ctx.proofs(THEOREMS, gen_files=["GenS3.v", "GenRange.v"])
